@@ -78,7 +78,7 @@ theorem step_frameInv {o : Oracle} {op : Nat} {s s' : St} {io io' : Io} {e : Ev}
     (h : Step o op (s, io) e (s', io')) : FrameInv s' := by
   cases h with
   | init hf => exact frameInv_fresh hf
-  | copy hI hw hst hrm hc hn h =>
+  | copy hI hw hop hnf hst hrm hc hn h =>
     obtain ⟨_, _, _, _, c5, _, _, _, _, c10, c11, _⟩ := copy_fields hI.init h
     refine ⟨carryOK_eq hF.carry c10 c11, ?_⟩
     intro hb; rw [c5, hst] at hb; cases hb
@@ -91,7 +91,7 @@ theorem step_frameInv {o : Oracle} {op : Nat} {s s' : St} {io io' : Io} {e : Ev}
   | push hI hc h =>
     obtain ⟨_, c2, c3, c4, c5, c6⟩ := push_conserve' hc h
     exact frameInv_of_eq hF c3 c4 c2 c5 c6
-  | encSlow hI hop hrm hnc hnp hpend hst hgo h =>
+  | encSlow hI hop hnf hrm hnc hnp hpend hst hgo h =>
     obtain ⟨_, _, _, _, _, u6, _, _, u9, u10, _, _, _, u14, u15⟩ := updateSizeHint_fields s io.availIn
     have hc1 : CarryOK (updateSizeHint s io.availIn) := carryOK_eq hF.carry u15 u14
     have hc2 := encodeData_carryOK hc1 h
@@ -171,7 +171,7 @@ theorem step_emitted {o : Oracle} {op : Nat} {s s' : St} {io io' : Io} {e : Ev} 
     obtain ⟨p, rfl⟩ := hf
     rw [emitted_def, emitted_def]
     simp [ensureInitialized, St.new, Ev.bits, St.carry, bitsOf]
-  | copy hI hw hst hrm hc hn h =>
+  | copy hI hw hop hnf hst hrm hc hn h =>
     obtain ⟨_, _, _, _, _, _, _, _, c9, c10, c11, _⟩ := copy_fields hI.init h
     rw [emitted_eq rfl c9 c10 c11]
     simp [Ev.bits]
@@ -186,7 +186,7 @@ theorem step_emitted {o : Oracle} {op : Nat} {s s' : St} {io io' : Io} {e : Ev} 
     obtain ⟨c1, _, c3, c4, _⟩ := push_conserve' hc h
     rw [emitted_def, emitted_def, c3, c4, List.append_assoc, c1, List.append_assoc]
     simp [Ev.bits]
-  | encSlow hI hop hrm hnc hnp hpend hst hgo h =>
+  | encSlow hI hop hnf hrm hnc hnp hpend hst hgo h =>
     obtain ⟨_, _, _, _, _, _, _, _, _, _, _, _, u13, u14, u15⟩ := updateSizeHint_fields s io.availIn
     have hp : (updateSizeHint s io.availIn).pending = [] := by rw [u13, hpend]
     have h1 := emitted_encode (d := d ++ io.out) h hp
